@@ -166,7 +166,10 @@ def run(rep, tier, seed):
                               {"engine": "E2", "M": M,
                                "history": [list(h) for h in hist]},
                               detail, "E2-cluster-M%d" % M)
-    cs = cases(tier, seed) + repeated_name_cases() + huge_buffer_cases()
+    cs = cases(tier, seed) + repeated_name_cases() + huge_buffer_cases() + \
+        common.add_algs(list(common.zero_demand_scope(
+            "thorough" if tier == "thorough" else "quick")), lambda c: [{"kind": "queue"}, {"kind": "batch", "p": 1, "min": 1}],
+            feasible_only=False)
     e1.sweep(rep, cs, monitors_for, {})
     rep.states = len(rep.states) + e2_states
     e1.conformance(rep, cs[::max(1, len(cs) // 40)])
